@@ -46,7 +46,7 @@ fn arr_has(s: &ArrSpec, pred: &dyn Fn(&ArrSpec) -> bool) -> bool {
         | ArrSpec::CurveFromBoundUntil { inner, .. }
         | ArrSpec::PrefixFromBoundUntil { inner, .. }
         | ArrSpec::CurveFromPrefix { inner } => arr_has(inner, pred),
-        ArrSpec::Sum(v) => v.iter().any(|x| arr_has(x, pred)),
+        ArrSpec::Sum(v) | ArrSpec::Slice(v) => v.iter().any(|x| arr_has(x, pred)),
         ArrSpec::SumOf(a, b) => arr_has(a, pred) || arr_has(b, pred),
         _ => false,
     }
@@ -91,7 +91,7 @@ pub fn key_hint(c: &Case) -> String {
                     visit(&own.0);
                     others.iter().for_each(|x| visit(&x.0))
                 }
-                RosCase::Chain { src, others, .. } => {
+                RosCase::Chain { src, others, .. } | RosCase::ChainSummed { src, others, .. } => {
                     visit(src);
                     others.iter().for_each(|x| visit(&x.0))
                 }
